@@ -119,7 +119,7 @@ def same_record(got, exp, fastq):
 
 
 def short(rec):
-    return {"id": rec["id"], "seq": rec["seq"], "attrs": rec["attrs"] if isinstance(rec["attrs"], dict) else {}}
+    return {"id": rec["id"], "seq": rec["seq"], "qual": rec.get("qual"), "attrs": rec["attrs"] if isinstance(rec["attrs"], dict) else {}}
 
 
 # ------------------------------------------------------------------------------------ command lines
@@ -220,14 +220,15 @@ class Runner:
               "notag": lambda t: "cc" + "acacaca" + fwd + ins + rc(rev) + rc("acacaca") + "gg",
               "noprimer": lambda t: "acgtacgtagctagctagctagctagctagtcgatcgatcgatgctagctagctagctagctagc"}
         tags = ["aattaac", "gaagtag"]
-        with open(os.path.join(self.dir, "mux.fasta"), "w") as f:
-            for i, cl in enumerate(self.data["mux"]):
-                f.write(">read%02d {\"n\":%d}\n%s\n" % (i + 1, i + 1, mk[cl](tags[i % 2])))
+        for k, reads in enumerate(self.data["mux"]):
+            with open(os.path.join(self.dir, "mux%d.fasta" % (k + 1)), "w") as f:
+                for i, cl in enumerate(reads):
+                    f.write(">read%02d {\"n\":%d}\n%s\n" % (i + 1, i + 1, mk[cl](tags[i % 2])))
         with open(os.path.join(self.dir, "ngs.txt"), "w") as f:
             f.write("exp  sampleA  aattaac  TTAGATACCCCACTATGC  TAGAACAGGCTCCTCTAG  F  @\n"
                     "exp  sampleB  gaagtag  TTAGATACCCCACTATGC  TAGAACAGGCTCCTCTAG  F  @\n")
 
-    def add(self, case, cpu, bs, fastq, save, seed):
+    def add(self, case, cpu, bs, fastq, save, seed, tag=""):
         import random
         rng = random.Random(seed)
         self.njob += 1
@@ -265,10 +266,10 @@ class Runner:
             argv.append(fwd)
         elif t == "mux":
             argv = [os.path.join(self.bindir, "obimultiplex")] + par + ["-t", os.path.join(self.dir, "ngs.txt"),
-                                                                       "-u", "unid.fasta", os.path.join(self.dir, "mux.fasta")]
+                                                                       "-u", "unid.fasta", os.path.join(self.dir, "mux%d.fasta" % case["set"])]
         else:
             raise ValueError(t)
-        self.jobs.append({"argv": argv, "cwd": d, "case": case, "fastq": fastq, "save": save,
+        self.jobs.append({"argv": argv, "cwd": d, "case": case, "fastq": fastq, "save": save, "tag": tag,
                           "cfg": "cpu=%d bs=%d %s%s" % (cpu, bs, "fastq" if fastq else "fasta", " save" if save else "")})
 
     def run(self):
@@ -329,7 +330,8 @@ class Runner:
             self.fail(j, t + ".output_unreadable", repr(ex))
         if len(self.ctx.violations) + len(self.ctx.known_hits) == ok_before:
             self.ctx.classes[cls] = self.ctx.classes.get(cls, 0) + 1
-        fam = "bin/" + t + ("/paired" if case.get("mode", "none") != "none" else "") + ("/save" if j["save"] else "")
+        fam = "bin/" + t + ("/paired" if case.get("mode", "none") != "none" else "") + ("/save" if j["save"] else "") + \
+            ("/" + j["tag"] if j["tag"] else "")
         self.ctx.classes[fam] = self.ctx.classes.get(fam, 0) + 1
         self.ctx.replayed += 1
 
@@ -443,6 +445,26 @@ def schedule(ctx, runner, cases, thorough):
                 runner.add(case, cpu, bs, fq, save, k)
 
 
+def schedule_last_batch(ctx, runner, cases, thorough):
+    """The side files (--save-discarded, obimultiplex -u) are written by a goroutine of their own.  When the side
+    stream is shorter than one batch its only batch is delivered when the input ends: the class of runs where the
+    command may finish before that file is written.  Such cases are repeated."""
+    small = [c for c in cases if c["tool"] == "grep" and 1 <= len(c["disc"]) <= 2]
+    small = vlib.sample(ctx.rng, [c for c in small if c["mode"] == "none"], 40) + \
+        vlib.sample(ctx.rng, [c for c in small if c["mode"] != "none"], 20)
+    mux = [c for c in cases if c["tool"] == "mux" and 1 <= len(c["disc"]) <= 2]
+    reps = 12 if thorough else 5
+    k = 1000000 + ctx.seed
+    for _ in range(reps):
+        for c in small:
+            k += 1
+            runner.add(c, 2 if k % 2 else 8, 3, c["mode"] != "none" and k % 4 < 2, True, k, tag="lastbatch")
+    for _ in range(reps * 40):
+        for c in mux:
+            k += 1
+            runner.add(c, 2 if k % 2 else 8, 3, False, False, k, tag="lastbatch")
+
+
 def main(ctx):
     thorough = ctx.tier == "thorough"
     if ctx.replay:
@@ -466,6 +488,7 @@ def main(ctx):
     # R (a): the real binaries ------------------------------------------------------------------
     runner = Runner(ctx, data)
     schedule(ctx, runner, cases, thorough)
+    schedule_last_batch(ctx, runner, cases, thorough)
     n = runner.run()
     vlib.log("ran %d command lines on the real binaries" % n)
     ctx.extra["binary_runs"] = n
@@ -474,7 +497,8 @@ def main(ctx):
     ctx.extra["sporadic_process_failures"] = len(failed_first)
     if failed_first:
         ctx.extra["sporadic_process_failure_sample"] = failed_first[0]
-    for need in ("bin/grep", "bin/grep/save", "bin/grep/paired", "bin/grep/paired/save", "bin/annot", "bin/dist", "bin/mux"):
+    for need in ("bin/grep", "bin/grep/save", "bin/grep/paired", "bin/grep/paired/save", "bin/annot", "bin/dist", "bin/mux",
+                 "bin/grep/save/lastbatch", "bin/grep/paired/save/lastbatch", "bin/mux/lastbatch"):
         ctx.expect_vacuity("class " + need, ctx.classes.get(need, 0))
     ctx.samples.append({"case": {k: v for k, v in cases[len(cases) // 2].items() if k != "out"}})
 
